@@ -237,6 +237,15 @@ func (table *Table) findRow(primary []byte) (*Row, bool, error) {
 	if row, ok := table.rowmap[string(primary)]; ok {
 		return row, true, nil
 	}
+	// the row is not in the cache: if its delete is pending the database row is not current any more
+	for i := len(table.rows) - 1; i >= 0; i-- {
+		if table.rows[i].Ty != None && bytes.Equal(table.rows[i].Primary, primary) {
+			if table.rows[i].Ty == Del {
+				return nil, false, types.ErrNotFound
+			}
+			break
+		}
+	}
 	row, err := table.GetData(primary)
 	return row, false, err
 }
